@@ -120,6 +120,7 @@ def run(ctx):
   wrappers(ctx)
   predicates(ctx)
   rank_flow(ctx)
+  predicate_call_sites(ctx)
   application(ctx)
   low_rank_root(ctx)
   # the packed root must be the root of the UNPADDED statistic: mask prologue / cast-back shared with the dense routines
@@ -335,6 +336,56 @@ def rank_flow(ctx):
     ctx.ob('C10.R2', fi.short, f'compressed root on the true arm [fd={fd}]', ok,
            'lax.cond(should_compress, special_root, small_root): the packed root must be produced exactly when _should_compress holds', ctx.loc(fi),
            sample='cond(should_compress, special, small)')
+
+
+def predicate_call_sites(ctx):
+  """R2b: every call of `_should_compress` / `_precond_dim` anywhere in the module passes a rank-valued first argument
+  (a parameter / configuration value / object field whose API name ends in `rank`, possibly through abs()) and a
+  dimension-valued second one.  Both parameters are integers, so a swapped pair type-checks and - for the usual
+  |rank| + 2 < dim - silently answers "do not compress"."""
+  import ast as _ast
+  m = ctx.model
+  mod = m.modules[[k for k in m.modules if k.endswith(MOD)][0]]
+  targets = {'_should_compress', '_precond_dim'}
+  owners = {}
+  for fq, fi in m.functions.items():
+    if fi.module is not mod or fi.node.name in targets:
+      continue
+    inner = {id(x) for ch in fi.children.values() for x in _ast.walk(ch.node)}
+    for n in _ast.walk(fi.node):
+      if id(n) in inner or not isinstance(n, _ast.Call):
+        continue
+      f = n.func
+      nm = f.id if isinstance(f, _ast.Name) else (f.attr if isinstance(f, _ast.Attribute) else None)
+      if nm in targets:
+        owners.setdefault(fq, (fi, 0))
+        owners[fq] = (fi, owners[fq][1] + 1)
+  ctx.need('C10.R2', len(owners), 6, 'functions calling _should_compress / _precond_dim')
+
+  def is_rank(t):
+    t = strip_casts(t)
+    while t.op == 'call' and t.args[0].op == 'builtin' and t.args[0].args[0] == 'abs' and len(t.args[1]) == 1:
+      t = strip_casts(t.args[1][0])
+    if t.op == 'sym':
+      return str(t.args[-1]).endswith('rank')
+    if t.op == 'attr':
+      return str(t.args[1]).endswith('rank')
+    return False
+  for fq, (fi, n_sites) in sorted(owners.items()):
+    ctx.analysed(fi)
+    ev = evaluator(m, opaque=targets | {'_fd_low_rank_unpack', '_fd_low_rank_pack', 'matrix_inverse_pth_root', 'frequent_directions_update',
+                                        'gram_weighted_update'})
+    args = {'self': sym('param', fi.short, 'self')} if fi.node.args.args and fi.node.args.args[0].arg == 'self' else {}
+    ev.run(fi, args=args)
+    recs = [c for c in ev.calls if c.callee.split('.')[-1] in targets and c.caller == fi.fq and c.args is not None]
+    ctx.need('C10.R2', len(recs), 1, f'evaluated calls of the compression predicates in {fi.short}')
+    for c in recs:
+      r_, d_ = c.args.get('compression_rank', NONE), c.args.get('dim', NONE)
+      ok = is_rank(r_) and not is_rank(d_) and not is_const(d_)
+      ctx.ob('C10.R2', fi.short, f'{c.callee.split(".")[-1]}(rank, dim) argument roles', ok,
+             f'the compression predicate must be asked with (rank, dimension): got rank=`{show(r_, maxdepth=3)[:80]}`, dim=`{show(d_, maxdepth=3)[:80]}` '
+             '(swapped integers type-check and silently answer "not compressed")', ctx.loc(fi, c.node) if c.node is not None else ctx.loc(fi),
+             sample='(compression rank, dimension)')
 
 
 def application(ctx):
